@@ -288,3 +288,20 @@ Definition enc_dirfile (f : option dirfile) : list Z :=
 Definition enc_ddisk (d : ddisk) : list Z :=
   let r := rle (dk_dat d) in
   znat (length r / 2) :: r ++ enc_dirfile (dk_dir d) ++ enc_dirfile (dk_bak d).
+
+(* ---------- (a) again: the DB after a session, for the correspondence check of [db_ops] ----------
+   harness/c06.py reads the DB with the real backend class before and after an (interrupted) run, logs the
+   (key, value) pairs save_success passes to backend.set for every saved task ([recd]) and compares the DB after
+   the run with [session_db recd m0 tr], tr = the trace Model/Runner.v computes for the run.  Keys and JSON values
+   are numbered per case; value ids are >= 0, -1 = the record has no such key / the task has no record. *)
+Definition session_db (recd : name -> list (N * Z)) (m : spec) (tr : list event) : spec :=
+  exec spec_step m (db_ops recd tr).
+Definition mk_rec (l : list (N * Z)) : trec := fold_left (fun r kv => rset r (fst kv) (snd kv)) l empty.
+Definition mk_spec (l : list (N * list (N * Z))) : spec :=
+  fold_left (fun m tr => upd m (fst tr) (Some (mk_rec (snd tr)))) l empty.
+Definition enc_rec (keys : list N) (o : option trec) : list Z :=
+  match o with
+  | None => [(-1)%Z]
+  | Some r => 1%Z :: map (fun k => match r k with Some v => v | None => (-1)%Z end) keys
+  end.
+Definition enc_spec (names keys : list N) (m : spec) : list Z := flat_map (fun t => enc_rec keys (m t)) names.
